@@ -3,7 +3,8 @@
 L1: State(name, splitter).prepare_states -> states_val, exhaustively over all trees with
     <= 3 fields x lengths 0..3 (quick) plus all 4-field trees x lengths 1..3 (thorough).
 L2: Task.split(tree, **lists)(cache_root=...) end to end with a tagging task and an
-    execution log, on Hypothesis-sampled trees over <= 4 fields, lengths 0..3.
+    execution log, on Hypothesis-sampled trees over <= 4 fields, lengths 0..3; some lists hold
+    one None/falsy element, and flat outer products are also spelled keyword-only.
 Oracle: vlib/ref/splitter.py.
 """
 from __future__ import annotations
@@ -22,8 +23,9 @@ DESIGN_REF = "5/C01, 3.1"
 RULE = (
     "cases = (splitter tree over distinct fields a..d built from n-ary outer/inner nodes, "
     "length vector); L1 enumerates the whole space (<=3 fields x lengths 0..3; thorough adds 4 "
-    "fields x lengths 1..3) against State.prepare_states, L2 runs Hypothesis-sampled cases end to "
-    "end through Task.split()(...) with an execution log. Non-trivial = >=2 split fields and (a "
+    "fields x lengths 0..3) against State.prepare_states, L2 runs Hypothesis-sampled cases end to "
+    "end through Task.split()(...) with an execution log (lists may hold one None/0/\"\"/False/[]/0.0 "
+    "element; flat outer products are also spelled keyword-only). Non-trivial = >=2 split fields and (a "
     "nested node or an inner node); distinct = (level, canonical tree, length vector)."
 )
 ASSUMPTIONS = [
@@ -200,7 +202,7 @@ def l1_space(tier):
     if tier == "thorough":
         for t in R.all_trees(4):
             fs = R.fields_of(t)
-            for lv in itertools.product(range(1, 4), repeat=4):
+            for lv in itertools.product(range(0, 4), repeat=4):
                 yield t, dict(zip(fs, lv))
 
 
@@ -234,4 +236,4 @@ def run(sh):
         sh.run_case(case, nontrivial=R.nontrivial(case["tree"]) or bool(case.get("odd")), labels=labels,
                     raise_unattributed=True)
 
-    sh.given(l2_case(), body, sh.budget(640, 6000), tag="l2")
+    sh.given(l2_case(), body, sh.budget(640, 24000), tag="l2")
